@@ -300,6 +300,34 @@ Proof.
 Qed.
 
 (* ---------- one event ---------- *)
+Lemma handle_event2_inv d d2 now x e mapped :
+  RegInv (QN Q) (x_registry x) -> defaults_valid d = true -> defaults_valid d2 = true -> ev_ok e ->
+  (forall r nm ls, mapped = Some (r, nm, ls) ->
+     rule_valid r = true /\ forall k v, In (k, v) ls -> Q k) ->
+  match handle_event2 d d2 now x e mapped with
+  | HOk x' => RegInv (QN Q) (x_registry x')
+  | HPanic => False
+  end.
+Proof.
+  intros HI Hd Hd2 He Hm. unfold handle_event2.
+  destruct (classify d (x_tel x) e mapped) as [tel|tel1 t name labels help ttl rule_ upd] eqn:Ec;
+    [exact HI|].
+  destruct (classify_ok Q legal_Q _ _ _ _ _ _ _ _ _ _ _ _ Ec He) as (C1 & C2 & C3 & C4 & C5 & C6).
+  { intros r nm ls E. apply (Hm r nm ls E). }
+  assert (Hopts : hist_bounds (hist_buckets_for d2 rule_) <> Panic /\ (summ_max_age_for d2 rule_ <? 0)%Z = false).
+  { apply vec_opts_ok; [exact Hd2|]. intros ru Eru. rewrite C6 in Eru.
+    destruct mapped as [[[r nm] ls]|]; [|discriminate]. inversion Eru; subst.
+    apply (Hm ru nm ls eq_refl). }
+  pose proof (get_series_inv (QN Q) (x_registry x) d2 rule_ now t name labels help ttl HI C1 C2 C3) as G.
+  destruct (get_series (x_registry x) d2 rule_ now t name labels help ttl) as [rg' n vk vals|rg'|].
+  - destruct G as [G1 (rn & G2 & G3 & G4)]; try tauto.
+    rewrite <- G3 in C5.
+    destruct (update_series_inv (QN Q) rg' n vk vals upd rn G1 G2 G4 C5) as (rg'' & E & HI'').
+    rewrite E. exact HI''.
+  - apply G; tauto.
+  - apply G; tauto.
+Qed.
+
 Lemma handle_event_inv d now x e mapped :
   RegInv (QN Q) (x_registry x) -> defaults_valid d = true -> ev_ok e ->
   (forall r nm ls, mapped = Some (r, nm, ls) ->
@@ -309,23 +337,7 @@ Lemma handle_event_inv d now x e mapped :
   | HPanic => False
   end.
 Proof.
-  intros HI Hd He Hm. unfold handle_event.
-  destruct (classify d (x_tel x) e mapped) as [tel|tel1 t name labels help ttl rule_ upd] eqn:Ec;
-    [exact HI|].
-  destruct (classify_ok Q legal_Q _ _ _ _ _ _ _ _ _ _ _ _ Ec He) as (C1 & C2 & C3 & C4 & C5 & C6).
-  { intros r nm ls E. apply (Hm r nm ls E). }
-  assert (Hopts : hist_bounds (hist_buckets_for d rule_) <> Panic /\ (summ_max_age_for d rule_ <? 0)%Z = false).
-  { apply vec_opts_ok; [exact Hd|]. intros ru Eru. rewrite C6 in Eru.
-    destruct mapped as [[[r nm] ls]|]; [|discriminate]. inversion Eru; subst.
-    apply (Hm ru nm ls eq_refl). }
-  pose proof (get_series_inv (QN Q) (x_registry x) d rule_ now t name labels help ttl HI C1 C2 C3) as G.
-  destruct (get_series (x_registry x) d rule_ now t name labels help ttl) as [rg' n vk vals|rg'|].
-  - destruct G as [G1 (rn & G2 & G3 & G4)]; try tauto.
-    rewrite <- G3 in C5.
-    destruct (update_series_inv (QN Q) rg' n vk vals upd rn G1 G2 G4 C5) as (rg'' & E & HI'').
-    rewrite E. exact HI''.
-  - apply G; tauto.
-  - apply G; tauto.
+  intros HI Hd He Hm. exact (handle_event2_inv d d now x e mapped HI Hd Hd He Hm).
 Qed.
 
 Lemma handle_events_inv now evs : forall m x,
@@ -403,26 +415,28 @@ Proof.
   unfold final_sys. cbn [fold_left]. apply IH. apply (step_inv s o Hs).
 Qed.
 
-Theorem across_reload_gen f cache t0 opsA opsB ops l evs t e :
+Theorem across_reload_gen f cache t0 opsA opsB opsC ops l evs t e :
   cache_ok cache ->
   line_to_events pf f l = Ok (evs, t) -> In e evs ->
   let sA := final' (init_sys CS f cache t0) opsA in
   let sB := final' (init_sys CS f cache t0) opsB in
+  let sC := final' (init_sys CS f cache t0) opsC in
   let s := final' (init_sys CS f cache t0) ops in
   let rm := get_mapping uni_word re_match CS c_get c_add (s_mapper CS sA) (e_name e) (type_string (e_kind e)) in
   let mapped := match fst rm with Some mr => lookup_rule CS (snd rm) mr | None => None end in
-  handle_event (m_defaults CS (s_mapper CS sB)) (s_now CS s) (s_exp CS s) e mapped <> HPanic.
+  handle_event2 (m_defaults CS (s_mapper CS sB)) (m_defaults CS (s_mapper CS sC)) (s_now CS s) (s_exp CS s) e mapped <> HPanic.
 Proof.
-  intros Hc El Hin sA sB s rm mapped.
+  intros Hc El Hin sA sB sC s rm mapped.
   destruct (final_inv opsA _ (init_inv f cache t0 Hc)) as [_ HMA].
   destruct (final_inv opsB _ (init_inv f cache t0 Hc)) as [_ (DB & _ & _)].
+  destruct (final_inv opsC _ (init_inv f cache t0 Hc)) as [_ (DC & _ & _)].
   destruct (final_inv ops _ (init_inv f cache t0 Hc)) as [HI _].
-  fold sA in HMA. fold sB in DB. fold s in HI.
+  fold sA in HMA. fold sB in DB. fold sC in DC. fold s in HI.
   pose proof (l2e_events_ok _ _ _ _ _ El) as Hev. rewrite Forall_forall in Hev. specialize (Hev e Hin).
   destruct rm as [r mA'] eqn:Eg. subst rm.
   destruct (get_mapping_inv _ _ _ _ _ HMA Eg) as [(M1 & M2 & M3) Hr].
   cbn [fst snd] in mapped.
-  pose proof (handle_event_inv (m_defaults CS (s_mapper CS sB)) (s_now CS s) (s_exp CS s) e mapped HI DB Hev) as H.
+  pose proof (handle_event2_inv (m_defaults CS (s_mapper CS sB)) (m_defaults CS (s_mapper CS sC)) (s_now CS s) (s_exp CS s) e mapped HI DB DC Hev) as H.
   match type of H with ?A -> _ => assert (HA : A) end.
   { intros ru nm ls E. subst mapped. destruct r as [mr|]; [|discriminate].
     unfold lookup_rule in E. destruct (nth_error (m_rules CS mA') (mr_rule mr)) as [ru'|] eqn:En; [|discriminate].
@@ -475,7 +489,7 @@ Qed.
 Lemma event_across_reload_no_panic_ok : forall pf uni_word re_match heur_bt re_compiles CS c_get c_add c_reset builtins,
     stmt_event_across_reload_no_panic pf uni_word re_match heur_bt re_compiles CS c_get c_add c_reset builtins.
 Proof.
-  intros pf uni_word re_match heur_bt re_compiles CS c_get c_add c_reset builtins f cache t0 opsA opsB ops l evs t e.
+  intros pf uni_word re_match heur_bt re_compiles CS c_get c_add c_reset builtins f cache t0 opsA opsB opsC ops l evs t e.
   unfold init.
   apply (across_reload_gen pf uni_word re_match heur_bt re_compiles CS c_get c_add c_reset builtins
                            (fun _ => True) (fun _ _ => I) (fun _ => True)).
@@ -484,6 +498,9 @@ Proof.
   - auto.
   - destruct cache; exact I.
 Qed.
+
+Lemma handle_event2_same_ok : stmt_handle_event2_same.
+Proof. intros d now x e mapped. reflexivity. Qed.
 
 (* ---------- C03 ---------- *)
 (* what a cached answer must satisfy for scrapes to succeed: label names non-empty, valid UTF-8 *)
